@@ -560,13 +560,14 @@ pub fn run(part: &mut Part) {
                 if !leaf.seed.ops.is_empty() {
                     c17_leaf(env, leaf, 1);
                 }
+                c17_leaf(env, leaf, 2);
             });
             part.stats.merge(stats);
             part.bounds = json!({"profiles": descr, "foreign_entries": ["23-char wal name", "25-char wal name", "19 digits + letter", "24 bytes with an Arabic-Indic digit", "upper-case prefix", "sub-directory with a valid WAL name (900) holding a file", "symlink with a valid WAL name (901) to a file with valid WAL content", "dotfile", "large unrelated file", "'+' sign", "'.tmp' suffix", "xwal- prefix with 24 chars", "embedded space", "'-' sign"],
-                "foreign_content": "every foreign file holds a valid WAL that creates queue \"evil\" with one record", "variants": ["foreign entries present from the start", "WAL files renumbered with gaps after the seed (k -> k + 3*rank + 2), log reopened"], "file_system": "real (tmpfs), not the in-memory directory"});
+                "foreign_content": "every foreign file holds a valid WAL that creates queue \"evil\" with one record", "variants": ["foreign entries present from the start", "WAL files renumbered with gaps after the seed (k -> k + 3*rank + 2), log reopened", "a symlink to an outside file planted on the name of the next WAL file to be created (after the seed; for the empty seed: on wal-0 before the first open)"], "file_system": "real (tmpfs), not the in-memory directory"});
             part.stats.sample(|| json!({"seed":"gc-ready","ops":["Trunc(0,Last)","App(1,Auto,[XL])"],"variant":"foreign-entries"}));
             part.rule = "real directory pre-populated with 14 foreign entries x every history of the bound (roll-over and GC on the path): after every explored prefix each foreign entry is byte-identical (type, content, link target, children), every name created/removed/opened/read/written/resized in the I/O trace is wal-<20 digits> and not foreign, and queue \"evil\" never appears; second variant: the seed's WAL files are renumbered with gaps and the log must reopen to the model state and keep conforming".into();
-            part.require_outcomes(&["calls_deleting_wal_files", "calls_creating_wal_files", "gap_renumberings"]);
+            part.require_outcomes(&["calls_deleting_wal_files", "calls_creating_wal_files", "gap_renumberings", "symlink_on_next_wal_name_cases"]);
         }
         other => {
             part.machinery_errors
